@@ -148,10 +148,10 @@ Qed.
 
 (* ---------- most-significant-first lists (the layout of a coefficient's limbs) ---------- *)
 
-Lemma lval_app1 (b : Z) (l : list Z) (x : Z) : lval b (l ++ [x]) = lval b l * 2 ^ b + x.
-Proof. unfold lval. rewrite fold_left_app. reflexivity. Qed.
+Lemma lval_app1 (b : Z) (l : list Z) (x : Z) : e_lval b (l ++ [x]) = e_lval b l * 2 ^ b + x.
+Proof. unfold e_lval. rewrite fold_left_app. reflexivity. Qed.
 
-Lemma lval_rev (b : Z) (l : list Z) : lval b (rev l) = lvalr b l.
+Lemma lval_rev (b : Z) (l : list Z) : e_lval b (rev l) = lvalr b l.
 Proof.
   induction l as [|x t IH]; [reflexivity|]. cbn [rev lvalr]. rewrite lval_app1, IH. ring.
 Qed.
@@ -165,7 +165,7 @@ Proof.
   clear IH. induction n as [|n IH]; [reflexivity|]. cbn [repeat app]. f_equal. exact IH.
 Qed.
 
-Lemma lval_repeat (b x : Z) (n : nat) : lval b (repeat x n) = x * geom b n.
+Lemma lval_repeat (b x : Z) (n : nat) : e_lval b (repeat x n) = x * geom b n.
 Proof. rewrite <- (rev_repeat x n), lval_rev. apply lvalr_repeat. Qed.
 
 Lemma lvalr_zeros (b : Z) (n : nat) : lvalr b (zeros n) = 0.
